@@ -1,19 +1,21 @@
 # C09 Configuration text is read back faithfully
-ASSUMPTIONS = ["path storage = static buffer object with a harness vtable (private, mutable, capacity 24, growth refused); the real path_* functions run on it",
+ASSUMPTIONS = ["path storage functions bound to the flat path model PM (include/stubs/pathmodel.c, 32 bytes); the parser units are real",
                "one parser call per query ('*' section-prefix format with default delimiters); the driver loop, the other two styles and tree building are outside the built queries",
                "mpt_log is an empty stub"]
-U = ["mptcore/parse/%s.c" % f for f in "parse_format_pre parse_option parse_data parse_getchar parse_nextvis parse_endline parse_ncheck parse_accept".split()] + [
-    "mptcore/config/%s.c" % f for f in "path_addchar path_add path_del path_valid path_fini".split()] + [
-    "mptcore/array/array_slice.c", "mptcore/array/array_append.c", "mptcore/array/buffer_insert.c", "mptcore/array/buffer_alloc.c",
-    "mptcore/array/buffer_set.c", "mptcore/array/array_clone.c", "mptcore/misc/refcount.c"]
-COMMON = dict(units=U, fp=BUF_FP + [(r"getc", ["h_getc"])], stubs=["libc.c", "libc_loops.c", "no_traits.c", "malloc_pages.c"],
-              flags=["--max-field-sensitivity-array-size", "100"])
+REN = {"mpt_path_addchar": "verif_pm_addchar", "mpt_path_delchar": "verif_pm_delchar", "mpt_path_valid": "verif_pm_valid",
+       "mpt_path_add": "verif_pm_add", "mpt_path_invalidate": "verif_pm_invalidate"}
+U = [("mptcore/parse/%s.c" % f, REN) for f in "parse_format_pre parse_option parse_data parse_getchar".split()] + [
+    "mptcore/parse/%s.c" % f for f in "parse_nextvis parse_endline parse_ncheck parse_accept".split()]
+COMMON = dict(units=U, fp=[(r"getc", ["h_getc"])], stubs=["libc.c", "pathmodel.c"], flags=["--max-field-sensitivity-array-size", "100"])
 
 
 def queries(tier):
-    n = 3 if tier == "quick" else 5
-    return [Q("format_pre_readback", "C08/pre.c", harness_defines={"MODE": 2}, unwind_default=20,
-              unwind={"memcpy": 26, "memset": 26, "memmove": 26, "memchr": 6},
-              bounds="one option line generated from symbolic parts: optional blank/comment line, 0..1 leading blank, name of 1..2 chars {a,b}, 0..2 blanks around =, value of 0..3 chars {a,b,space}, trailing blank, optional comment",
-              outside="quoted values, sections, nesting, the other two styles, values beyond 3 characters, tree building (node_append)",
-              timeout=900 if tier == "quick" else None, **COMMON)]
+    qs = []
+    variants = [(0, 0, 1)] if tier == "quick" else [(p, c, 3) for p in (0, 1, 2) for c in (0, 1)]
+    for (pre, com, vl) in variants:
+        qs.append(Q("format_pre_readback_p%d_c%d" % (pre, com), "C08/pre.c", harness_defines=dict({"MODE": 2, "PRELINE": pre, "COMMENT": com, "VLMAX": vl}, **({"LEAD": 0, "NLMAX": 1, "AFTERMAX": 1} if tier == "quick" else {})),
+                    unwind_default=10 if tier == "quick" else 16, unwind={"memchr": 6, "verif_pm_add": 34, "blanks": 3, "harness": 4},
+                    bounds="one option line from symbolic parts: %s, 0..1 leading blank, name of 1..2 chars {a,b}, 0..2 blanks (space/tab) on each side of '=', value of 0..%d chars {a,b,space} (no outer blanks), 0..1 trailing blank%s" % (
+                        {0: "no preceding line", 1: "preceding blank line", 2: "preceding comment line"}[pre], vl, ", trailing comment" if com else ""),
+                    outside="quoted values, sections, nesting, the other two styles, longer values, tree building (node_append)", timeout=600, **COMMON))
+    return qs
